@@ -51,6 +51,8 @@ PROFILES = {
     'c17ncm': {'trackers': ['NodeClassMatrix'], 'n_classes': [2, 3], 'p_ccm': 1.0, 'p_cct': 0.8, 'p_qcap': 0.5, 'p_renege': 0.3, 'p_prio': 0.3,
                'p_kinds': (0.75, 0.05, 0.2, 0.0), 'p_ps': 0.0},
     'c02ps': {'p_ps': 1.0, 'p_ps_node': 0.6, 'p_qcap': 0.7, 'qcaps': [0, 0, 1, 2], 'n_nodes': [2, 3], 'arr_scale': 0.6, 'p_prio': 0.0},
+    'c13lat': {'p_renege': 1.0, 'p_baulk': 0.3, 'p_kinds': (0.8, 0.0, 0.2, 0.0), 'p_ps': 0.0, 'p_lattice': 1.0, 'p_batch': 0.7, 'arr_scale': 0.7, 'ren_scale': 1.0,
+               'disciplines': ['LIFO', 'SIRO', 'FIFO'], 'p_prio': 0.5, 'horizons': [30.0, 50.0]},
     'c14': {'run_methods': ['time', 'time', 'customers'], 'horizons': [0.05, 0.5, 1.0, 5.0, 10.0, 20.0, 30.0, 50.0]},
     'c14lattice': {'run_methods': ['time', 'time', 'customers'], 'p_lattice': 1.0, 'horizons': [0.5, 1.0, 2.0, 3.5, 5.0, 10.0, 20.0]},
     'c14wide': {'run_methods': ['time', 'customers'], 'p_ps': 0.2, 'p_prio': 0.7, 'p_prio_preempt': 0.8, 'p_renege': 0.5, 'p_baulk': 0.4,
@@ -92,8 +94,8 @@ PLANS = {
     'C10': ([('c10', 5), ('generic', 4), ('lattice', 1), ('exactlattice', 1)], scope_all, ['C10.services']),
     'C11': ([('c11', 9), ('generic', 1)], scope_c11, ['C11.preemptions']),
     'C12': ([('c12', 7), ('slotall', 1), ('generic', 2)], scope_all, ['C12.shift_changes', 'C12.slots']),
-    'C13': ([('c13', 7), ('generic', 3)], scope_all, ['C13.renege_events', 'C13.baulk_decisions']),
-    'C14': ([('c14', 3), ('c14lattice', 2), ('c14wide', 4), ('c12', 1), ('c11', 1), ('c13', 1), ('ring', 1), ('c09', 1), ('exactall', 1)], scope_all, ['C14.runs_completed']),
+    'C13': ([('c13', 6), ('c13lat', 2), ('generic', 3)], scope_all, ['C13.renege_events', 'C13.baulk_decisions']),
+    'C14': ([('c14', 3), ('c14lattice', 2), ('c14wide', 4), ('c12', 1), ('c11', 1), ('c13', 1), ('ring', 1), ('c09', 1), ('exactall', 1), ('c13lat', 1)], scope_all, ['C14.runs_completed']),
     'C17': ([('c17', 6), ('c17ncm', 2), ('generic', 2), ('ring', 1)], lambda spec, f: bool(spec.get('tracker')), ['C17.state_comparisons']),
 }
 
